@@ -12,7 +12,7 @@ malformed content.
 Coverage audit (item of the property text -> stream that drives it on the IMPLEMENTATION; P = the property predicate
 "signature == k-mer set of the contigs == union of per-contig signatures" is judged there, M = also tied to the model):
 
-  clause / quantifier element            streams (numbers as in generate(); A..H were added by the audit, I by the round-5 review)
+  clause / quantifier element            streams (numbers as in generate(); A..H were added by the audit, I by the round-5 review, J after round 7)
   reverse-complement any contig          1 exhaustive masks, 3 random (P,M); C: ambiguity codes complemented as tools do (P,M)
   reorder contigs                        1, 3 (P,M); F: duplicated contigs, a contig + its reverse complement, 30+ contigs (P,M)
   letter case                            1, 3 (P,M): keep / upper / lower / per-byte mixed
@@ -29,6 +29,19 @@ Coverage audit (item of the property text -> stream that drives it on the IMPLEM
   no k-mer across a contig boundary      1, 3, A..G joints "prefix | k letters" planted; counter "boundary-sensitive variant"
   all multi-contig genomes: size         0-8 contigs of 0-300 bytes in 1-3; G: contigs of 64-128 kB (1 MB thorough), 150 contigs,
                                          matches planted across offsets 2^9..2^17; judged by P alone (model too slow, see _pyspec)
+  all multi-contig genomes: CONTIG       J (long contigs, added after the round-7 miss): contigs of 2^16, 2^20, 2^21 (2^22, 5 * 2^20, 8 * 2^20 thorough) +- a few
+  LENGTH                                 letters, just across 2^20 (+1, +2, +k+prefix_len-1 ..) and ~30 lengths between 2^20 and 2^21 (up to 2^22 thorough)
+                                         in one genome; N / n / poly-A backgrounds (nothing matches on its own) or random ACGT / ACGTacgt (matches
+                                         everywhere); complete prefix+k-mer occurrences with genome-wide unique k-mers PLANTED on both strands, flush
+                                         with both ends and in ladders across every multiple of 2^16 and 10^6 counted from either end (upper case, every
+                                         third one lower case, or lower case from / up to an offset near a power of two), so that over the
+                                         contigs of one genome, as generated and reverse-complemented, an occurrence starts on either strand at EVERY
+                                         offset within +-(prefix_len+k+2) of 2^20 (and of 2^16): an implementation that searches, reads or converts
+                                         long sequences piecewise cannot lose or invent a k-mer at a piece boundary unnoticed.  Per contig
+                                         calc_signature as generated and reverse-complemented, then file variants (orientation masks incl. all, order,
+                                         upper / lower / block-wise case, widths 60..2^20..one line, CRLF, final newline, gzip l1 / stored / multi-member,
+                                         extensions), union of per-contig signatures, `signatures create` (default spec, -c none/1/2); default 11/ATGAC
+                                         and k 11..20 with other prefixes (P; judged against _pyspec, the model is not run on megabytes)
   k / prefix                             3: k 1..16, prefix 1..4 (API); E, H: k 17, 20, 31, 32 (uint64), prefix up to 6, default 11/ATGAC
   calc_file_signature                    all genome streams, positional call, compression 'auto'; H: str / pathlib / relative path,
                                          .absolute(), from_paths, keyword arguments, explicit compression 'gzip' / None / 'none',
@@ -88,7 +101,12 @@ RULE = ('genome: (k, prefix, contigs, variants) -> for every variant file calc_f
         'caller-supplied executor / the in-process CLI; caller accumulators left non-empty; the path of B previously holding another '
         'genome) the signature of B == signature_spec(contigs of B), and every well-formed earlier read == the k-mer set of its own '
         'genome; the outcome of a failing call is not judged; non-trivial: >= 2 contigs, non-empty signature and a history in which a '
-        'call raised or a caller accumulator was left non-empty')
+        'call raised or a caller accumulator was left non-empty | long: (k, prefix, descriptions of long contigs, variants) -> contigs of 2^16 .. 2^22+ letters '
+        '(lengths +- a few around 2^16, 2^20, 2^21, 2^22 and multiples of 2^20) with uniquely numbered prefix+k-mer occurrences planted on both strands '
+        'flush with the ends and at every offset within +-(prefix_len+k+2) of every multiple of 2^16 / 10^6 from either end: calc_signature of every contig, as '
+        'generated and reverse-complemented, == the k-mer set of that contig (_pyspec: bytes.find over the whole contig), and the signature of every variant '
+        'file (orientation, order, case, width, CRLF, final newline, gzip, extension) and of `gambit signatures create` == the union of these sets == the '
+        'union of the per-contig signatures; non-trivial: >= 2 contigs, one longer than 2^16, non-empty signature, variant differs from the canonical file')
 TRUSTED = ['hand model of io.TextIOWrapper(newline=None) and Biopython 1.88 FastaIterator on ASCII text (Model/C06Fasta.v), '
            'validated against SequenceFile.parse on every run, not verified',
            'zlib/gzip: Section variable gunzip with hypotheses gunzip(gzip x) = x and gzip x starts with 1f 8b; the '
@@ -96,7 +114,10 @@ TRUSTED = ['hand model of io.TextIOWrapper(newline=None) and Biopython 1.88 Fast
            'C01 (Props/C01.v): model of calc_signature = signature_spec; tools/pyx2v.py for the encoders',
            'history stream: the model is a pure function of the contig list, so it is the oracle for "the signature B has in a fresh '
            'process"; the failing inputs (truncated / corrupted gzip, undecodable bytes, raising iterators) are only required to leave no '
-           'trace, which exception they raise (or whether they raise: locale, gzip member boundaries) is counted, not judged']
+           'trace, which exception they raise (or whether they raise: locale, gzip member boundaries) is counted, not judged',
+           'long-contig stream: the oracle is the harness\'s own _pyspec (prefix search with bytes.find over the whole upper-cased contig and its reverse '
+           'complement; no windows, no chunks), the same function that is compared with the extracted signature_spec on every genome of at most 4096 letters; '
+           'the harness also checks that every occurrence it planted is in that set.  The Coq model is not evaluated on megabyte inputs']
 ASSUMPTIONS = ['file content is ASCII (decoding is the identity; other bytes depend on the locale encoding)',
                'sequence bytes are not space/tab/CR/LF/">" and titles contain no CR/LF (wf_contig, checked on every generated genome)',
                'prefix is non-empty upper-case ACGT, k >= 1 (KmerSpec validates it); the CLI is exercised for k >= 5, prefix length >= 2 '
@@ -106,7 +127,9 @@ ASSUMPTIONS = ['file content is ASCII (decoding is the identity; other bytes dep
                'the file is opened with compression="auto" as every CLI command does (SequenceFile\'s own default None means "none")',
                'history: earlier calls and the judged call run one after the other (in the main thread or in one worker thread of a '
                '1-worker executor); concurrent interference between threads / processes is C13; a signature computed INTO a caller-supplied '
-               'accumulator that is not empty is not judged (the property does not state it)']
+               'accumulator that is not empty is not judged (the property does not state it)',
+               'long contigs: lengths up to 2^21+ (quick) / 8 * 2^20 (thorough); anchors of the planted ladders are the multiples of 2^16 and 10^6 from either end '
+               '(piece sizes that are neither are met only by the random-background contigs); k >= 11 so that every planted k-mer is unique in the genome']
 
 _TR = bytes.maketrans(b'ACGTacgt', b'TGCAtgca')
 EXTS = ['.fa', '.fasta', '.fasta.gz', '.gz', '', '.fna', '.txt', '.fa.gz']
@@ -246,13 +269,15 @@ def gz_blob(data, mode, seed=0):
 
 
 def _recase(b, cseed):
-	"""case pattern of a contig: None keep, 'u' upper, 'l' lower, int -> per-byte random choice"""
+	"""case pattern of a contig: None keep, 'u' upper, 'l' lower, int -> per-byte random choice, 'b<seed>' -> blocks of 1-5000 letters"""
 	if cseed is None:
 		return b
 	if cseed == 'u':
 		return b.upper()
 	if cseed == 'l':
 		return b.lower()
+	if isinstance(cseed, str) and cseed[:1] == 'b':       # 'b<seed>': blocks (long contigs)
+		return _recase_blocks(b, cseed[1:])
 	r = random.Random(cseed)
 	return bytes((c ^ 0x20) if (65 <= (c & ~0x20) <= 90 and r.random() < 0.5) else c for c in b)
 
@@ -1094,7 +1119,252 @@ def k_history(ctx, cases):
 					_unlink(path)
 
 
-KINDS = {'genome': k_genome, 'parse': k_parse, 'open': k_open, 'forms': k_forms, 'history': k_history}
+# ---- J. long contigs: the CONTIG-LENGTH dimension of "all multi-contig genomes" -------------------------------------
+# A contig is described by d = {id, len, b, bg, seed, lc, lcfrom, lcto} (lc: every third plant in lower case; lcfrom / lcto: the
+# plants from / up to that offset in lower case -- a soft-masked region that begins or ends somewhere inside a long contig): a background (bg: 'N', 'n', 'A' = letters that never match on
+# their own, 'rand' / 'randl' = random ACGT / ACGTacgt, which match everywhere) of `len` letters in which complete prefix+k-mer
+# occurrences are PLANTED, each with a k-mer found nowhere else in the genome, so that losing any single occurrence
+# changes the signature.  Plants form ladders of touching occurrences (stride prefix_len + k, strands alternating, phase
+# derived from b) across every ANCHOR: each multiple of 2^16 (hence of 2^17 .. 2^22) and of 10^6 counted from the 5' end
+# and, mirrored, from the 3' end (the mirror images take the originals' places, on the other strand, when the contig is
+# reverse-complemented), and flush with both ends.  Contigs with b = 0 .. prefix_len+k-1 (longer than the anchor + 2 * (prefix_len
+# + k) + 2), as generated and reverse-complemented, together place an occurrence start on either strand at every offset
+# within +-(prefix_len+k+2) of the anchor.
+LONG_STEPS = (1 << 16, 10 ** 6)
+_TBL4 = bytes(b'ACGT'[i & 3] for i in range(256))
+_TBL8 = bytes(b'ACGTacgt'[i & 7] for i in range(256))
+
+
+def _kmer_letters(x, k):
+	return bytes(b'ACGT'[(x >> (2 * (k - 1 - i))) & 3] for i in range(k))
+
+
+def _long_contig(d, k, p):
+	"""-> (contig bytes, plants) with plants = [(start, strand, kmer index)], strand 0: the text holds prefix + k-mer at
+	start; 1: it holds their reverse complement there (an occurrence on the reverse strand)"""
+	L, b = d['len'], d.get('b', 0)
+	T = len(p) + k
+	W = T + 2
+	bg = d.get('bg', 'N')
+	if bg in ('rand', 'randl'):
+		buf = bytearray(random.Random(d.get('seed', 0)).randbytes(L).translate(_TBL4 if bg == 'rand' else _TBL8))
+	else:
+		buf = bytearray(bg.encode()[:1] * L)
+	anchors = [(m * step, m, step) for step in LONG_STEPS for m in range(1, L // step + 1)]
+	# multiples of 2^20 first (their ladders are never displaced by a neighbouring anchor's), then the rest in order
+	anchors.sort(key=lambda a: (0 if a[2] == 1 << 16 and a[1] % 16 == 0 else 1, a[1], a[2]))
+	anchors.insert(0, (0, 0, 0))
+	plants = []
+	used = {}
+	space = 1 << (2 * k)
+	cid = d.get('id', 0)
+
+	def plant(s, strand):
+		if s < 0 or s + T > L:
+			return
+		for q in (s // T - 1, s // T, s // T + 1):
+			o = used.get(q)
+			if o is not None and abs(o - s) < T:
+				return
+		used[s // T] = s          # (plants never overlap, so a bucket of T positions holds at most one start)
+		x = (((cid << 16) | len(plants)) * 2654435761 + 977) % space
+		m = p + _kmer_letters(x, k)
+		if strand:
+			m = _rc(m)
+		if (d.get('lc') and len(plants) % 3 == 2) or s >= d.get('lcfrom', L + 1) or s < d.get('lcto', 0):
+			m = m.lower()
+		buf[s:s + T] = m
+		plants.append((s, strand, x))
+
+	# every plant has a mirror image (same distance from the 3' end, same strand value): when the contig is reverse-
+	# complemented the mirror image lies at the original's offset from the 5' end, on the other strand
+	plant(0, b & 1)
+	plant(L - T, b & 1)
+	for B, m, step in anchors:
+		phi = (b + 5 * m + 3 * (m // 16) + (3 if step == 10 ** 6 else 0)) % T
+		ladder = [(B + phi + T * j, (j + m + b // T) & 1) for j in range(-3, 3) if -W - T < phi + T * j <= W]
+		for s, strand in ladder:
+			plant(s, strand)
+		for s, strand in ladder:
+			plant(L - T - s, strand)
+	return bytes(buf), plants
+
+
+def _recase_blocks(b, seed):
+	"""case pattern in blocks of 1-5000 letters (soft-masked regions), affordable on megabyte contigs"""
+	r = random.Random(f'{seed}/{len(b)}')
+	out = bytearray(b)
+	i = 0
+	while i < len(out):
+		n = r.randint(1, 5000)
+		if r.random() < 0.5:
+			out[i:i + n] = out[i:i + n].swapcase()
+		i += n
+	return bytes(out)
+
+
+def _where(plantmap, x, lens):
+	h = plantmap.get(x)
+	if h is None:
+		return f'#{x} (not planted: background)'
+	ci, s, strand = h
+	L = lens[ci]
+	near = min(((abs(s - m * st), f'{m}*{st}') for st in (1 << 20, 1 << 16) for m in (s // st, s // st + 1) if m), default=(None, ''))
+	return (f'#{x} planted in contig {ci} (length {L} = 2^20*{L >> 20}+{L & ((1 << 20) - 1)}) at offset {s} '
+	        f'({"+" if strand == 0 else "-"} strand; {L - s} from the 3\' end; {near[0]} from {near[1]})')
+
+
+def k_long(ctx, cases):
+	"""genome of long contigs.  case: k, prefix, long = [contig descriptors, see _long_contig], variants (as in k_genome),
+	cli (optional: run `gambit signatures create` on the first and the last variant file).  Judged by the property
+	predicate against _pyspec (bytes.find over the whole contig: no windows) -- the model is not run on megabytes:
+	calc_signature of every contig as generated and reverse-complemented == the k-mer set of that contig; signature of every
+	variant file == the union of these sets == the union of the implementation's per-contig signatures."""
+	from gambit.kmers import KmerSpec
+	from gambit.seq import SequenceFile
+	from gambit.sigs.calc import calc_file_signature, calc_signature
+	from gambit.sigs.base import load_signatures
+	from click.testing import CliRunner
+	import gambit.cli
+
+	for c in cases:
+		k, p = c['k'], c['prefix']
+		pb = p.encode()
+		kspec = KmerSpec(k, p)
+		descs = c['long']
+		built = [_long_contig(d, k, pb) for d in descs]
+		contigs = [s for s, _ in built]
+		lens = [len(s) for s in contigs]
+		titles = [b'L%d len=%d' % (d.get('id', 0), d['len']) for d in descs]
+		n = len(contigs)
+		plantmap = {}
+		dup = 0
+		for ci, (s, plants) in enumerate(built):
+			for st, strand, x in plants:
+				dup += x in plantmap
+				plantmap.setdefault(x, (ci, st, strand))
+		per = [_pyspec(k, pb, [s]) for s in contigs]
+		expect = sorted(set(itertools.chain.from_iterable(per)))
+		for ci, (s, plants) in enumerate(built):
+			have = set(per[ci])
+			if any(x not in have for _, _, x in plants):
+				ctx.broke('harness: a planted occurrence is not in the reference k-mer set of its contig', str(descs[ci]))
+		if dup:
+			ctx.count('long contigs: planted k-mers that are not unique in the genome', dup)
+		ctx.count('long contigs: contigs', n)
+		ctx.count('long contigs: contigs longer than 2^20', sum(1 for x in lens if x > 1 << 20))
+		ctx.count('long contigs: planted occurrences', sum(len(pl) for _, pl in built))
+		ctx.count('long contigs: k-mers of the background', len(expect) - len(set(expect) & set(plantmap)))
+
+		def diff(got):
+			if not isinstance(got, list):
+				return str(got)[:200]
+			miss = sorted(set(expect) - set(got))
+			extra = sorted(set(got) - set(expect))
+			return (f'{len(got)} k-mers; {len(miss)} missing' + (': ' + '; '.join(_where(plantmap, x, lens) for x in miss[:4]) if miss else '')
+			        + (f'; {len(extra)} not in the genome: {extra[:6]}' if extra else ''))
+
+		# every contig on its own, as generated and reverse-complemented
+		bad = False
+		iu = set()
+		for ci, s in enumerate(contigs):
+			gots = []
+			for orient, t in (('as generated', s), ('reverse-complemented', _rc(s))):
+				try:
+					got = [int(x) for x in calc_signature(kspec, t)]
+				except Exception as e:  # noqa
+					got = type(e).__name__ + ': ' + str(e)[:120]
+				gots.append(got)
+				ctx.case(dict(k=k, prefix=p, contig=descs[ci], orient=orient, nsig=len(per[ci])), nontrivial=len(per[ci]) > 0 and lens[ci] > 1 << 16)
+			if isinstance(gots[0], list):
+				iu.update(gots[0])
+			for orient, got in zip(('as generated', 'reverse-complemented'), gots):
+				if got != per[ci]:
+					miss = sorted(set(per[ci]) - set(got)) if isinstance(got, list) else []
+					own = {x: (0, st, sd) for x, (cj, st, sd) in plantmap.items() if cj == ci}
+					ctx.violation('long', dict(c, long=[descs[ci]], variants=[]),
+					              f'calc_signature of a contig of {lens[ci]} letters, {orient}, is not the set of prefix-anchored k-mers of that contig '
+					              f'({len(per[ci])} k-mers): {str(got)[:80] if not isinstance(got, list) else str(len(got)) + " k-mers"}'
+					              f' (the signatures of the contig and of its reverse complement are {"EQUAL" if gots[0] == gots[1] else "DIFFERENT"}); missing '
+					              + '; '.join(_where(own, x, [lens[ci]]) for x in miss[:4]),
+					              impl=got if not isinstance(got, list) else dict(n=len(got), missing=miss[:50], extra=sorted(set(got) - set(per[ci]))[:50]),
+					              spec=dict(n=len(per[ci])), other_orientation=dict(n=len(gots[1 - (orient == 'reverse-complemented')])
+					                                                                   if isinstance(gots[1 - (orient == 'reverse-complemented')], list) else None))
+					bad = True
+					break
+			if bad:
+				break
+		iu = sorted(iu)
+		paths = []
+		for v in ([] if bad else c['variants']):
+			recs = apply_variant(contigs, titles, v)
+			data = _render(recs, v)
+			blob = gz_blob(data, v.get('gzm'), v.get('gzseed', 0)) if v['gz'] else data
+			if v['gz'] and (blob[:2] != b'\x1f\x8b' or gzip.decompress(blob) != data):
+				ctx.broke('assumption: gunzip(gzip x) = x and gzip x starts with 1f 8b', f'{len(data)} bytes, flavour {v.get("gzm")}')
+			path = _path(v['ext'], v.get('name'))
+			with open(path, 'wb') as f:
+				f.write(blob)
+			paths.append(path)
+			del data, blob
+			try:
+				sig = calc_file_signature(kspec, SequenceFile(path, 'fasta', 'auto'))
+				got = [int(x) for x in sig]
+			except Exception as e:  # noqa
+				got = type(e).__name__ + ': ' + str(e)[:120]
+			ctx.case(dict(k=k, prefix=p, long=descs, nsig=len(expect), **_vdesc(v)),
+			         nontrivial=n >= 2 and len(expect) > 0 and max(lens) > 1 << 16 and _vdesc(v) != CANON)
+			ctx.count('ext:' + (v['ext'] or '(none)') + (' gz' if v['gz'] else ' plain'))
+			if not _wf(recs):
+				ctx.broke('harness: generated contigs are not well-formed', str(c)[:300])
+				continue
+			if got != expect:
+				ctx.violation('long', dict(c, variants=[v]),
+				              f'signature of the file written as {_vdesc(v)} ({n} contigs of lengths {lens[:8]}) is not the set of prefix-anchored '
+				              f'k-mers of the contigs ({len(expect)} k-mers): {diff(got)}',
+				              impl=got if not isinstance(got, list) else dict(n=len(got), missing=sorted(set(expect) - set(got))[:50],
+				                                                              extra=sorted(set(got) - set(expect))[:50]), spec=dict(n=len(expect)))
+				bad = True
+				break
+			if got != iu:
+				ctx.violation('long', dict(c, variants=[v]), f'file signature ({len(got)} k-mers) is not the union of the per-contig signatures ({len(iu)} k-mers)',
+				              impl=dict(n=len(got)), union=dict(n=len(iu)))
+				bad = True
+				break
+		cli = c.get('cli')
+		if cli and paths and not bad and k >= 5 and len(p) >= 2:
+			sel = sorted({0, len(paths) - 1})
+			out = _path('.gs')
+			args = ['signatures', 'create', '--no-progress']
+			if cli.get('cores') is not None:
+				args += ['-c', str(cli['cores'])]
+			if not ((k, p) == (11, 'ATGAC') and cli.get('defaults')):
+				args += ['-k', str(k), '-p', p]
+			args += ['-o', out] + [paths[i] for i in sel]
+			r = CliRunner().invoke(gambit.cli.cli, args)
+			ctx.count('cli invocations')
+			if r.exit_code != 0:
+				ctx.violation('long', dict(c, variants=[c['variants'][i] for i in sel]),
+				              f'gambit signatures create failed on {len(sel)} variant files of a genome of long contigs: {r.exception!r} {r.output[:200]}',
+				              impl=repr(r.exception))
+			else:
+				sigs = load_signatures(out)
+				for i, sig in zip(sel, sigs):
+					ctx.count('cli signatures')
+					lst = [int(x) for x in sig]
+					if lst != expect:
+						ctx.violation('long', dict(c, variants=[c['variants'][i]]),
+						              f'gambit signatures create: signature of the file written as {_vdesc(c["variants"][i])} is not the k-mer set of the '
+						              f'contigs: {diff(lst)}', impl=dict(n=len(lst)), spec=dict(n=len(expect)))
+						break
+				if hasattr(sigs, 'close'):
+					sigs.close()
+			_unlink(out)
+		for path in paths:
+			_unlink(path)
+
+
+KINDS = {'genome': k_genome, 'parse': k_parse, 'open': k_open, 'forms': k_forms, 'history': k_history, 'long': k_long}
 BATCH = 12
 
 
@@ -1263,6 +1533,74 @@ def generate(ctx):
 
 	# ==== streams added by the coverage audit (see the table in the module docstring) ================================
 	yield from _audit_streams(ctx, rng)
+
+	# ---- J. long contigs: lengths crossing 2^16, 2^20, 2^21, 2^22 and multiples of 2^20, occurrences planted at every offset
+	#         around every multiple of 2^16 / 10^6 from either end (see _long_contig); judged without the model ---------------------
+	yield from _long_streams(ctx, rng)
+
+
+def _long_variants(rng, lens, nv, gzms):
+	n = len(lens)
+	vs = [dict(CANON), dict(CANON, omask=(1 << n) - 1, w=80, ext='.fasta')]
+	ws = [60, 61, 70, 4095, 8192, 65536, 1 << 20, (1 << 20) - 10, max(lens) + 1]
+	rng.shuffle(ws)
+	for i in range(nv):
+		gzm = rng.choice(gzms)
+		vs.append(dict(omask=rng.getrandbits(n), pseed=rng.randrange(1 << 30) if i % 3 != 2 else None,
+		               cseed=[f'b{rng.randrange(1 << 30)}', 'l', None, 'u'][i % 4], w=ws[i % len(ws)], crlf=i % 2 == 0, fnl=i % 3 != 0,
+		               gz=i % 2 == 1 or rng.random() < 0.3, gzm=gzm, gzseed=rng.randrange(1 << 30), ext=EXTS[(i + 2) % len(EXTS)]))
+	return vs
+
+
+def _long_case(rng, ln):
+	"""case of the planted occurrences of a long contig: all upper, every third lower, lower from / up to an offset near a power of two"""
+	r = rng.random()
+	if r < 0.4:
+		return {}
+	if r < 0.6:
+		return dict(lc=True)
+	x = rng.choice([1 << 16, 1 << 20, (1 << 20) + 100, ln // 2, ln - 100, 1 << 17, 1 << 21])
+	return dict(lcfrom=x) if r < 0.85 else dict(lcto=x)
+
+
+def _long_streams(ctx, rng):
+	M = 1 << 20
+	# default k-mer spec, non-matching background: one contig per ladder phase b, every one crossing 2^20
+	k, p = 11, b'ATGAC'
+	T = len(p) + k
+	# one contig per ladder phase (16 for the default spec), each more than 100 letters away from a multiple of 2^20 so that
+	# neither the ladder across 2^20 nor its mirror image is displaced by another plant
+	full = [M + 100, M + rng.randint(100, 5000), M + rng.randint(100, 5000), M + 4096 + rng.randint(0, 20), M + 8192 - rng.randint(0, 20), M + (1 << 16) - 1,
+	        M + (1 << 16) + 1, M + (1 << 16) + T, M + (1 << 17) + rng.randint(0, 40), M + 3 * (1 << 16) - rng.randint(0, T), M + rng.randint(100, M - 100),
+	        M + rng.randint(100, M - 100), 10 ** 6 + M + rng.randint(0, 20), M + 10 ** 6 - T - rng.randint(0, 5), M + 12345, M + 10 ** 5]
+	cross = [M + 1, M + 2, M + T - 1, M + T, M + T + 1, M + 2 * T + 3, 2 * M - 1, 2 * M + 1]             # just across a multiple of 2^20
+	if not ctx.quick:
+		full += [4 * M + 101, 3 * M + rng.randint(100, 300), 5 * M + 333, 2 * M + 10 ** 6, 3 * M - 200] + [M + rng.randint(100, 3 * M) for _ in range(11)]
+		cross += [M + 3, M + 5, M + 11, M + 2 * T, 2 * M, 2 * M + T + 3, 4 * M - 1, 4 * M + 1, 3 * M - 2, 2 * M - T]
+	rng.shuffle(full)
+	cross = full + cross
+	r0 = rng.randrange(2 * T)
+	descs = [dict(id=i, len=ln, b=(r0 + i) % (2 * T), bg=rng.choice(['N', 'N', 'n', 'A']), **_long_case(rng, ln)) for i, ln in enumerate(cross)]
+	small = [(1 << 16) - 1, 1 << 16, (1 << 16) + 1, (1 << 16) + T, M, T, T - 1, 1, (1 << 17) + 3] + ([] if ctx.quick else [M - 1, M - T])
+	descs += [dict(id=len(cross) + i, len=ln, b=rng.randrange(2 * T), bg=rng.choice(['N', 'A', 'rand']), seed=rng.randrange(1 << 30)) for i, ln in enumerate(small)]
+	rng.shuffle(descs)
+	ctx.count('stream:long-contigs')
+	yield 'long', dict(k=k, prefix=p.decode(), long=descs, variants=_long_variants(rng, [d['len'] for d in descs], ctx.pick(3, 9), [None, 'l1', 'l0', 'multi']),
+	                   cli=dict(cores=rng.choice([None, 1, 2]), defaults=True))
+	# other k-mer specs (array accumulator up to k = 11, set accumulator above), matching (random) backgrounds, lower case
+	for gi in range(ctx.pick(1, 3)):
+		# (2-letter prefixes match 16 times as often in a random background: thorough only)
+		k, p = rng.choice([(12, b'GAT'), (13, b'ACGT'), (16, b'TTG'), (11, b'ATGAC'), (20, b'ATGAC'), (11, b'CAG')] + ([] if ctx.quick else [(15, b'AC'), (11, b'CA')]))
+		T = len(p) + k
+		lens = [4 * M + rng.choice([-2, 0, 3, T]), 2 * M + rng.randint(0, 2 * T), M + rng.randint(1, 2 * T), 3 * M - rng.randint(0, 9), (1 << 16) + rng.randint(0, T), M]
+		if not ctx.quick and gi == 1:
+			lens += [8 * M + 1, 6 * M - 1]
+		rng.shuffle(lens)
+		descs = [dict(id=i, len=ln, b=rng.randrange(2 * T), bg=rng.choice(['rand', 'randl', 'A', 'n', 'N']), seed=rng.randrange(1 << 30), **_long_case(rng, ln))
+		         for i, ln in enumerate(lens)]
+		ctx.count('stream:long-contigs')
+		yield 'long', dict(k=k, prefix=p.decode(), long=descs, variants=_long_variants(rng, lens, ctx.pick(2, 6), ['l1', 'l0']),
+		                   cli=dict(cores=rng.choice([None, 1, 2])) if gi % 2 else None)
 
 
 NAMES = ['my genome.fa', 'génome.fasta', 'ゲノム.fna.gz', 'a.gz.fa', 'x.fa.gz.txt', 'UPPER.FASTA.GZ', 'noext', '.hidden', '-dash.fa',
